@@ -9,7 +9,7 @@ Hypothesis Hlib : lib_contract lib.
 Theorem normalised_form_same_verdict s l : utf8_valid s = true ->
   (CheckMnemonicL lib (nfkd s) l = Ret None <-> CheckMnemonicL lib s l = Ret None).
 Proof.
-  intros Hv. apply (same_nfkd_same_verdict lib Hlib). exact (proj1 (nfkd_idem s Hv)).
+  intros Hv. apply (same_nfkd_same_verdict lib Hlib); [exact (proj2 (nfkd_idem s Hv))|exact Hv|exact (proj1 (nfkd_idem s Hv))].
 Qed.
 
 Theorem normalised_form_same_seed m p : utf8_valid m = true -> utf8_valid p = true ->
@@ -17,6 +17,6 @@ Theorem normalised_form_same_seed m p : utf8_valid m = true -> utf8_valid p = tr
   MnemonicToSeed lib (nfkd m) (nfkd p) = MnemonicToSeed lib m p.
 Proof.
   intros Hm Hp Xm Xp. symmetry.
-  apply (seed_same_nfkd lib Hlib); [symmetry; exact (proj1 (nfkd_idem m Hm))|symmetry; exact (proj1 (nfkd_idem p Hp))|exact Xm|exact Xp].
+  apply (seed_same_nfkd lib Hlib); [exact Hm|exact Hp|exact (proj2 (nfkd_idem m Hm))|exact (proj2 (nfkd_idem p Hp))|symmetry; exact (proj1 (nfkd_idem m Hm))|symmetry; exact (proj1 (nfkd_idem p Hp))|exact Xm|exact Xp].
 Qed.
 End Lib.
